@@ -249,22 +249,39 @@ def genParam (x : String) (s : R) : Param × R :=
   let d := genD x (lcg sp.2)
   ({ specs := sp.1, d := d.1 }, d.2)
 
+def genParamsRest : Nat → R → List Param → List Param × R
+  | 0, s, acc => (acc.reverse, s)
+  | k+1, s, acc => let p := genParam ("q" ++ toString k) (lcg s); genParamsRest k p.2 (p.1 :: acc)
+
 def genExt (depth : Nat) (idx : Nat) (s : R) : Ext × R :=
   let s1 := lcg s
-  match sel s 3 with
+  match sel s 4 with
   | 0 => let d := genDcl true s1; (.decl d.1, d.2)
   | 1 =>
     let sp := genSpecs true s1
     let body := genItems depth (sel sp.2 4) (lcg sp.2)
     (.fdef { specs := sp.1, d := D.fn0 (D.name ("f" ++ toString idx)), body := body.1 }, body.2)
+  | 2 =>
+    -- a prototype, possibly followed by further declarators
+    let sp := genSpecs true s1
+    let p0 := genParam "a" (lcg sp.2)
+    let np := sel p0.2 3
+    let rest := genParamsRest np (lcg p0.2) []
+    let nm := if sel rest.2 3 == 0 then 1 else 0
+    let rec more : Nat → R → List IDc → List IDc × R
+      | 0, s, acc => (acc.reverse, s)
+      | k+1, s, acc => let it := genIDc ("w" ++ toString idx ++ "_" ++ toString k) (lcg s); more k it.2 (it.1 :: acc)
+    let m := more nm (lcg rest.2) []
+    if sel m.2 4 == 0 then
+      (.proto { specs := sp.1, fd := { x := "pv" ++ toString idx, params := .void }, more := m.1 }, lcg m.2)
+    else
+      (.proto { specs := sp.1, fd := { x := "pr" ++ toString idx, params := .named { first := p0.1, more := rest.1 } }, more := m.1 },
+        lcg m.2)
   | _ =>
     let sp := genSpecs true s1
     let p0 := genParam "a" (lcg sp.2)
     let np := sel p0.2 3
-    let rec ps : Nat → R → List Param → List Param × R
-      | 0, s, acc => (acc.reverse, s)
-      | k+1, s, acc => let p := genParam ("q" ++ toString k) (lcg s); ps k p.2 (p.1 :: acc)
-    let rest := ps np (lcg p0.2) []
+    let rest := genParamsRest np (lcg p0.2) []
     let body := genItems depth (sel rest.2 4) (lcg rest.2)
     if sel body.2 4 == 0 then
       (.fdefp { specs := sp.1, fd := { x := "h" ++ toString idx, params := .void }, body := body.1 }, lcg body.2)
